@@ -362,21 +362,43 @@ Proof.
   rewrite count_if_cons, count_if_nil. cbn [ev_eqb b2n]. lia.
 Qed.
 
-Lemma balanced_events n : forall l gs rest,
-  Forall (fun t => (t_id t < n)%nat) l -> (l = [] -> gs = true) ->
-  balanced_from n (if gs then WOut else WGroup) (events_of l gs ++ rest) = balanced_from n WOut rest.
+Lemma end_of_group_false t l : test_ok t = true -> Forall (fun t => test_ok t = true) l -> end_of_group t l = false ->
+  match l with t2 :: _ => t_group t2 = t_group t | [] => False end.
 Proof.
-  induction l as [|t l IH]; intros gs rest F G.
+  intros Ht F E. destruct l as [|t2 l]; [discriminate E|]. cbn in E. apply negb_false_iff in E.
+  inversion F as [|? ? H2 _]; subst. unfold test_ok in *. apply andb_true_iff in Ht. apply andb_true_iff in H2.
+  rewrite sstr_equal_ok in E by tauto. apply bytes_eqb_eq in E. symmetry. exact E.
+Qed.
+
+Definition test_fits (n : nat) (grp : nat -> list N) (t : test) : Prop :=
+  (t_id t < n)%nat /\ test_ok t = true /\ grp (t_id t) = t_group t.
+
+Lemma balanced_events n grp : forall l gs g rest,
+  Forall (test_fits n grp) l -> (l = [] -> gs = true) ->
+  (gs = false -> match l with t :: _ => t_group t = grp g | [] => True end) ->
+  balanced_from n grp (if gs then WOut else WGroup g) (events_of l gs ++ rest) = balanced_from n grp WOut rest.
+Proof.
+  induction l as [|t l IH]; intros gs g rest F G Hg.
   - rewrite (G eq_refl). reflexivity.
-  - inversion F as [|? ? Ht F']; subst. apply Nat.ltb_lt in Ht.
-    assert (G' : l = [] -> end_of_group t l = true) by (intros ->; reflexivity).
-    specialize (IH (end_of_group t l) rest F' G').
-    cbn [events_of]. rewrite <- !app_assoc.
-    assert (T : forall w, balanced_from n WGroup (test_events t ++ w) = balanced_from n WGroup w).
-    { intro w. unfold test_events. destruct (should_run gf nf t); [|reflexivity].
-      destruct (m_ign t); cbn [app balanced_from]; rewrite Ht; cbn [andb]; [reflexivity|]. rewrite Nat.eqb_refl. reflexivity. }
-    destruct gs; cbn [app balanced_from]; rewrite ?Ht; cbn [andb]; rewrite T;
-      (destruct (end_of_group t l); cbn [app balanced_from]; exact IH).
+  - inversion F as [|? ? [Ht [Hok Hgrp]] F']; subst. apply Nat.ltb_lt in Ht.
+    assert (Fok : Forall (fun t => test_ok t = true) l).
+    { apply Forall_forall. intros x Hx. rewrite Forall_forall in F'. apply (F' x Hx). }
+    assert (T : forall g' w, grp g' = t_group t ->
+              balanced_from n grp (WGroup g') (test_events t ++ w) = balanced_from n grp (WGroup g') w).
+    { intros g' w Hg'. unfold test_events. destruct (should_run gf nf t); [|reflexivity].
+      destruct (m_ign t); cbn [app balanced_from]; rewrite Ht, Hgrp, Hg', bytes_eqb_refl; cbn [andb]; [reflexivity|].
+      rewrite Nat.eqb_refl. reflexivity. }
+    assert (K : forall g', grp g' = t_group t ->
+              balanced_from n grp (WGroup g') ((if end_of_group t l then [EGroupEnded] else []) ++ events_of l (end_of_group t l) ++ rest)
+              = balanced_from n grp WOut rest).
+    { intros g' Hg'. destruct (end_of_group t l) eqn:E; cbn [app balanced_from].
+      - apply (IH true g' rest F'); [reflexivity | discriminate].
+      - apply (IH false g' rest F').
+        + intros ->. discriminate E.
+        + intros _. pose proof (end_of_group_false t l Hok Fok E) as N. destruct l as [|t2 l2]; [exact I|]. rewrite N, Hg'. reflexivity. }
+    cbn [events_of]. rewrite <- !app_assoc. destruct gs; cbn [app balanced_from].
+    + rewrite Ht. cbn [andb]. rewrite (T (t_id t)) by exact Hgrp. apply K. exact Hgrp.
+    + assert (Hg' : grp g = t_group t) by (symmetry; apply (Hg eq_refl)). rewrite (T g) by exact Hg'. apply K. exact Hg'.
 Qed.
 End RunLoop.
 
@@ -483,6 +505,21 @@ Proof.
   destruct (selected s t), (t_ignored t), (s_ri s); reflexivity.
 Qed.
 
+Lemma ids_nth (l : list test) : forall m t, map t_id l = seq 0 m -> In t l -> nth_error l (t_id t) = Some t.
+Proof.
+  intros m t E Hin. destruct (In_nth_error l t Hin) as [k Hk].
+  assert (Hm : nth_error (map t_id l) k = Some (t_id t)) by (apply map_nth_error; exact Hk).
+  rewrite E in Hm. assert (Hlt : (k < length (seq 0 m))%nat) by (apply nth_error_Some; congruence).
+  rewrite seq_length in Hlt. apply (nth_error_nth _ _ 0%nat) in Hm. rewrite seq_nth in Hm by exact Hlt. cbn in Hm. subst k. exact Hk.
+Qed.
+Lemma valid_fits t : In t ts -> test_fits n (group_of ts) t.
+Proof.
+  intro Ht. unfold test_fits. split; [|split].
+  - assert (I : In (t_id t) (map t_id ts)) by (apply in_map; exact Ht). rewrite valid_ids in I. apply in_seq in I. lia.
+  - apply valid_tests. exact Ht.
+  - unfold group_of. rewrite (ids_nth ts n t valid_ids Ht). reflexivity.
+Qed.
+
 Definition expected_order : list nat := if s_rev s then seq 0 n else rev (seq 0 n).
 
 Lemma rep_ok_of_perm reg seeds drawn :
@@ -516,9 +553,9 @@ Proof.
     destruct (s_shuffle s); [reflexivity|]. cbn [orb]. apply natlist_eqb_eq. apply O. reflexivity.
   - (* shape *)
     unfold word_shape. rewrite rev_unit. rewrite rev_involutive.
-    pose proof (balanced_events (s_gf s) (s_nf s) (s_ri s) n reg true []) as B. rewrite app_nil_r in B. cbn [balanced_from] in B.
-    apply B; [|reflexivity]. apply Forall_forall. intros t Ht. apply Hin in Ht.
-    assert (I : In (t_id t) (map t_id ts)) by (apply in_map; exact Ht). rewrite valid_ids in I. apply in_seq in I. lia.
+    pose proof (balanced_events (s_gf s) (s_nf s) (s_ri s) n (group_of ts) reg true 0%nat []) as B. rewrite app_nil_r in B.
+    cbn [balanced_from] in B. apply B; [|reflexivity|discriminate]. apply Forall_forall. intros t Ht. apply Hin in Ht.
+    apply valid_fits. exact Ht.
   - (* exactly once *)
     apply forallb_forall. intros t Ht. apply andb_true_iff. split; apply N.eqb_eq.
     + rewrite occ_word by discriminate. unfold evs. rewrite occ_started. rewrite (count_if_perm _ _ _ P).
@@ -655,63 +692,68 @@ Proof.
   - intro ND. eapply Permutation_NoDup; [apply Permutation_sym; exact P | exact ND].
 Qed.
 
-(* group notifications: balanced for any order of tests *)
-Lemma groups_balanced gf nf ri l n : (forall t, In t l -> (t_id t < n)%nat) ->
-  word_shape n (fst (run_all_tests gf nf ri l)) = true.
+(* group notifications: balanced for any order of tests, every started test inside a segment opened for its own group *)
+Lemma groups_balanced gf nf ri l n grp : (forall t, In t l -> test_fits n grp t) ->
+  word_shape n grp (fst (run_all_tests gf nf ri l)) = true.
 Proof.
   intro H. unfold run_all_tests. rewrite run_loop_split. cbn [fst]. unfold word_shape. rewrite rev_unit, rev_involutive.
-  pose proof (balanced_events gf nf ri n l true []) as B. rewrite app_nil_r in B. cbn [balanced_from] in B.
-  apply B; [|reflexivity]. apply Forall_forall. exact H.
+  pose proof (balanced_events gf nf ri n grp l true 0%nat []) as B. rewrite app_nil_r in B. cbn [balanced_from] in B.
+  apply B; [|reflexivity|discriminate]. apply Forall_forall. exact H.
 Qed.
 
-(* what the automaton accepts, as a grammar: (GS (TS B? TE)* GE)* with B naming the started test *)
-Inductive TestSeg : list event -> Prop :=
-| seg_skipped i : TestSeg [ETestStarted i; ETestEnded]
-| seg_ran i : TestSeg [ETestStarted i; EBody i; ETestEnded].
-Inductive GroupBody : list event -> Prop :=
-| gb_nil : GroupBody []
-| gb_cons seg rest : TestSeg seg -> GroupBody rest -> GroupBody (seg ++ rest).
+(* what the automaton accepts, as a grammar: (GS g (TS i B? TE)* GE)* with B naming the started test and grp i = grp g *)
+Section Grammar.
+Variable grp : nat -> list N.
+Inductive TestSeg (g : nat) : list event -> Prop :=
+| seg_skipped i : grp i = grp g -> TestSeg g [ETestStarted i; ETestEnded]
+| seg_ran i : grp i = grp g -> TestSeg g [ETestStarted i; EBody i; ETestEnded].
+Inductive GroupBody (g : nat) : list event -> Prop :=
+| gb_nil : GroupBody g []
+| gb_cons seg rest : TestSeg g seg -> GroupBody g rest -> GroupBody g (seg ++ rest).
 Inductive Groups : list event -> Prop :=
 | gr_nil : Groups []
-| gr_cons g body rest : GroupBody body -> Groups rest -> Groups (EGroupStarted g :: body ++ EGroupEnded :: rest).
+| gr_cons g body rest : GroupBody g body -> Groups rest -> Groups (EGroupStarted g :: body ++ EGroupEnded :: rest).
 
 Lemma balanced_sound_aux n : forall m w, (length w <= m)%nat ->
-  (balanced_from n WOut w = true -> Groups w) /\
-  (balanced_from n WGroup w = true -> exists body rest, w = body ++ EGroupEnded :: rest /\ GroupBody body /\ Groups rest).
+  (balanced_from n grp WOut w = true -> Groups w) /\
+  (forall g, balanced_from n grp (WGroup g) w = true ->
+     exists body rest, w = body ++ EGroupEnded :: rest /\ GroupBody g body /\ Groups rest).
 Proof.
   induction m as [|m IH]; intros w L.
-  - destruct w; [|cbn in L; lia]. split; [intros _; constructor | intro H; discriminate H].
+  - destruct w; [|cbn in L; lia]. split; [intros _; constructor | intros g H; discriminate H].
   - split.
     + destruct w as [|e w]; [intros _; constructor|]. destruct e; cbn [balanced_from]; try (intro H; discriminate H).
       intro H. apply andb_true_iff in H. destruct H as [_ H]. cbn in L.
-      destruct (IH w ltac:(lia)) as [_ I]. destruct (I H) as [body [rest [-> [GB GR]]]]. constructor; assumption.
-    + destruct w as [|e w]; [intro H; discriminate H|]. cbn in L. destruct e; cbn [balanced_from]; try (intro H; discriminate H).
-      * (* TestStarted *) intro H. apply andb_true_iff in H. destruct H as [_ H].
+      destruct (IH w ltac:(lia)) as [_ I]. destruct (I _ H) as [body [rest [-> [GB GR]]]]. constructor; assumption.
+    + intro g. destruct w as [|e w]; [intro H; discriminate H|]. cbn in L. destruct e; cbn [balanced_from]; try (intro H; discriminate H).
+      * (* TestStarted *) intro H. apply andb_true_iff in H. destruct H as [H0 H]. apply andb_true_iff in H0. destruct H0 as [_ Hg].
+        apply bytes_eqb_eq in Hg.
         destruct w as [|e2 w]; [discriminate H|]. cbn in L. destruct e2; cbn [balanced_from] in H; try discriminate H.
         -- (* Body *) apply andb_true_iff in H. destruct H as [Hid H]. apply Nat.eqb_eq in Hid. subst id0.
            destruct w as [|e3 w]; [discriminate H|]. cbn in L. destruct e3; cbn [balanced_from] in H; try discriminate H.
-           destruct (IH w ltac:(lia)) as [_ I]. destruct (I H) as [body [rest [-> [GB GR]]]].
+           destruct (IH w ltac:(lia)) as [_ I]. destruct (I _ H) as [body [rest [-> [GB GR]]]].
            exists ([ETestStarted id; EBody id; ETestEnded] ++ body), rest. split; [reflexivity|]. split; [|exact GR].
-           apply gb_cons; [constructor | exact GB].
-        -- (* TestEnded *) destruct (IH w ltac:(lia)) as [_ I]. destruct (I H) as [body [rest [-> [GB GR]]]].
+           apply gb_cons; [constructor; exact Hg | exact GB].
+        -- (* TestEnded *) destruct (IH w ltac:(lia)) as [_ I]. destruct (I _ H) as [body [rest [-> [GB GR]]]].
            exists ([ETestStarted id; ETestEnded] ++ body), rest. split; [reflexivity|]. split; [|exact GR].
-           apply gb_cons; [constructor | exact GB].
+           apply gb_cons; [constructor; exact Hg | exact GB].
       * (* GroupEnded *) intro H. destruct (IH w ltac:(lia)) as [I _]. exists [], w. split; [reflexivity|]. split; [constructor | apply I; exact H].
 Qed.
-Lemma balanced_sound n w : balanced_from n WOut w = true -> Groups w.
+Lemma balanced_sound n w : balanced_from n grp WOut w = true -> Groups w.
 Proof. intro H. destruct (balanced_sound_aux n (length w) w (le_n _)) as [I _]. apply I. exact H. Qed.
 
-Lemma word_shape_sound n w : word_shape n w = true -> exists mid, w = ETestsStarted :: mid ++ [ETestsEnded] /\ Groups mid.
+Lemma word_shape_sound n w : word_shape n grp w = true -> exists mid, w = ETestsStarted :: mid ++ [ETestsEnded] /\ Groups mid.
 Proof.
   unfold word_shape. destruct w as [|e r]; [discriminate|]. destruct e; try discriminate.
   destruct (rev r) as [|e2 m] eqn:E; [discriminate|]. destruct e2; try discriminate. intro H.
   exists (rev m). split; [|eapply balanced_sound; exact H].
   f_equal. rewrite <- (rev_involutive r), E. cbn [rev]. reflexivity.
 Qed.
+End Grammar.
 
-Lemma groups_balanced_grammar gf nf ri l n : (forall t, In t l -> (t_id t < n)%nat) ->
-  exists mid, fst (run_all_tests gf nf ri l) = ETestsStarted :: mid ++ [ETestsEnded] /\ Groups mid.
-Proof. intro H. apply (word_shape_sound n). apply groups_balanced. exact H. Qed.
+Lemma groups_balanced_grammar gf nf ri l n grp : (forall t, In t l -> test_fits n grp t) ->
+  exists mid, fst (run_all_tests gf nf ri l) = ETestsStarted :: mid ++ [ETestsEnded] /\ Groups grp mid.
+Proof. intro H. apply (word_shape_sound grp n). apply groups_balanced. exact H. Qed.
 
 (* ---------------- examples: the hypotheses are satisfiable by non-trivial scenarios *)
 Definition ex_tests : list test :=
@@ -733,5 +775,8 @@ Example ex_shuffle : shuffle 7 [3; 0; 5; 1] [10; 11; 12; 13; 14]%nat = Some ([14
 Proof. vm_compute. reflexivity. Qed.
 Example ex_reverse : reverse [1; 2; 3; 4; 5]%nat = Some [5; 4; 3; 2; 1]%nat /\ relink [1; 2; 3]%nat = Some [1; 2; 3]%nat.
 Proof. vm_compute. split; reflexivity. Qed.
-Example ex_nodup : NoDup (map t_id ex_tests) /\ forall t, In t ex_tests -> (t_id t < 5)%nat.
-Proof. split; [vm_compute; repeat constructor; cbn; intuition discriminate|]. intros t H. cbn in H. intuition (subst; cbn; lia). Qed.
+Example ex_nodup : NoDup (map t_id ex_tests) /\ forall t, In t ex_tests -> test_fits 5 (group_of ex_tests) t.
+Proof.
+  split; [vm_compute; repeat constructor; cbn; intuition discriminate|]. intros t H. cbn in H.
+  unfold test_fits. intuition (subst; cbn; try reflexivity; lia).
+Qed.
